@@ -142,7 +142,9 @@ def s3(run, roles, L):
                    func=fn.name, construct="is_parameter_encryption other return")
             continue
         if isinstance(v, ast.Constant) and v.value is False:
-            absent = [a for a, t, _ in p.cond if t and a.endswith(" is None") and a[: -len(" is None")] in (p_area, f"{p_cmd}.authorizationArea")]
+            # ... of the form this path is called in: the command's own area when a command was given, else the area argument
+            relevant = (area,) if area is not None else (p_area, f"{p_cmd}.authorizationArea")
+            absent = [a for a, t, _ in p.cond if t and a.endswith(" is None") and a[: -len(" is None")] in relevant]
             run.ob("S3", bool(absent), f"return False [{lab}]: only for an absent session area",
                    f"False is returned on the path [{lab}] although a session area is present", module=mod, node=p.node or fn,
                    func=fn.name, construct="is_parameter_encryption [no sessions]")
